@@ -9,7 +9,7 @@
 EXTENDS OneWay, TLC
 
 CONSTANTS QueueMode, QCap, MaxConn, NPacks,
-          Broken      \* "none", or a deliberately broken design TLC must refute: "nolock" | "keepwriter"
+          Broken      \* "none", or a deliberately broken design TLC must refute: "nolock" | "keepwriter" | "wdial"
 
 AllPacks == { [id |-> 1, owner |-> "s1", pcode |-> 7, lic |-> NoLic, body |-> 1, big |-> FALSE],
               [id |-> 2, owner |-> "s1", pcode |-> 8, lic |-> "LB",  body |-> 2, big |-> TRUE],
@@ -44,6 +44,22 @@ ConnectKeepWriter(a) ==
   /\ streak' = 0
   /\ UNCHANGED <<conf, lock, pc, cur, fr, listener, queue, reg, okset, errset, res, faults>>
 
+\* broken design "wdial" (golib before the repair): in direct mode the worker of process() dials WITHOUT the send
+\* lock; its test (no connection) and its assignment (new connection, new writer) are separate steps, and a sender
+\* can dial and fill the writer in between: the frame stays in the abandoned writer, the send reports success
+WorkerDialStart ==
+  /\ Broken = "wdial" /\ ~conf.queue /\ pc[Worker] = "idle" /\ conn = 0
+  /\ pc' = [pc EXCEPT ![Worker] = "dialing"]
+  /\ UNCHANGED <<conf, lock, cur, fr, conn, nconn, wbuf, werr, net, wire, listener, queue, reg, okset, errset, res, faults, streak>>
+WorkerDialEnd ==
+  /\ Broken = "wdial" /\ pc[Worker] = "dialing" /\ listener = "open"
+  /\ nconn' = nconn + 1 /\ conn' = nconn + 1
+  /\ net' = Append(net, "up") /\ wire' = Append(wire, <<>>)
+  /\ wbuf' = <<>> /\ werr' = FALSE /\ streak' = 0
+  /\ pc' = [pc EXCEPT ![Worker] = "idle"]
+  /\ UNCHANGED <<conf, lock, cur, fr, listener, queue, reg, okset, errset, res, faults>>
+DoWorkerDialRacy == WorkerDialStart \/ WorkerDialEnd
+
 DoLock        == \E s \in Sender : IF Broken = "nolock" THEN LockNoMutex(s) ELSE Lock(s)
 DoUnlock      == \E s \in Sender : Unlock(s)
 DoReturn      == \E s \in Sender : Return(s)
@@ -66,7 +82,7 @@ SendSteps == \/ DoBuild \/ DoConnectOk \/ DoConnectFail \/ DoBufWrite \/ DoSpill
 (* The actions of the other mode are disabled by their own guards (Call:    *)
 (* ~conf.queue; Lock/Unlock/Return follow a Call; Enqueue, EnqueueFull,     *)
 (* Dequeue, IdleFlush: conf.queue; the worker moves only after a Dequeue).  *)
-DirectSteps == DoCall \/ DoLock \/ DoUnlock \/ DoReturn
+DirectSteps == DoCall \/ DoLock \/ DoUnlock \/ DoReturn \/ DoWorkerDialRacy
 QueueSteps  == DoEnqueue \/ DoEnqueueFull \/ Dequeue \/ WorkerSkipFlush \/ WorkerDone \/ DoIdleFlush
 ClientNext  == DirectSteps \/ QueueSteps \/ SendSteps
 
